@@ -28,6 +28,13 @@ impl RealEngine for Ssse3 {
         Ssse3::verif_with_tables(&MUL128, &SKEW)
     }
 }
+/// the Neon engine's source, ported textually onto emulated intrinsics
+pub use crate::gen::neon_port::Neon as NeonPort;
+impl RealEngine for NeonPort {
+    fn real() -> Self {
+        NeonPort::verif_with_tables(&MUL128, &SKEW)
+    }
+}
 impl RealEngine for Avx2 {
     fn real() -> Self {
         Avx2::verif_with_tables(&MUL128, &SKEW)
@@ -317,6 +324,11 @@ pub fn mul_ssse3(nblocks: usize) {
 pub fn mul_avx2(nblocks: usize) {
     let w = sym_words();
     let e = Avx2::verif_with_tables(arbitrary_mul128(&w), &SKEW);
+    mul_arbitrary_row(&e, &w, nblocks);
+}
+pub fn mul_neon(nblocks: usize) {
+    let w = sym_words();
+    let e = NeonPort::verif_with_tables(arbitrary_mul128(&w), &SKEW);
     mul_arbitrary_row(&e, &w, nblocks);
 }
 /// Naive: exp/log based, so instead of an arbitrary row: the supplied real
